@@ -57,6 +57,20 @@ var nameMenu = []string{"box", "BOX", "box+tag@d.org", "other", "b@d@"}
 
 var idMenu = []string{"1", "2", "latest", "9", ""}
 
+func showOf(w *vrf.RecWriter) *model.JSONMessageV1 {
+	if vrf.Symbolic() {
+		if v, ok := w.Value.(*model.JSONMessageV1); ok {
+			return v
+		}
+		return nil
+	}
+	out := &model.JSONMessageV1{}
+	if json.Unmarshal(w.Body, out) != nil {
+		return nil
+	}
+	return out
+}
+
 func listOf(w *vrf.RecWriter) []*model.JSONMessageHeaderV1 {
 	var out []*model.JSONMessageHeaderV1
 	if vrf.Symbolic() {
@@ -166,6 +180,18 @@ func VerifC14Handlers(m int, h int, backend int) {
 		if exists {
 			vrf.CoverIf("show-existing", true)
 			vrf.Assert("show-200", w.Code() == 200)
+			if h == 1 && w.Code() == 200 {
+				// the shown message carries the store's identity and metadata (also when it was
+				// asked for as 'latest')
+				m := showOf(w)
+				vrf.Assert("show-payload", m != nil)
+				if m != nil {
+					vrf.Assert("show-id-is-the-stores-id", m.ID == ids[idx])
+					vrf.Assert("show-subject", m.Subject == "s"+string(rune('1'+idx)))
+					vrf.Assert("show-size", m.Size == int64(len("H: v\r\n\r\nbody1\n")))
+					vrf.Assert("show-seen", !m.Seen)
+				}
+			}
 		} else {
 			vrf.Assert("show-missing-404", w.Code() == 404)
 		}
